@@ -1113,7 +1113,6 @@ class RZILTransformer(Transformer):
             case "-":
                 result = -val_a
                 a_type = promoted_type(a.value_type)
-                a_type.signed = True
             case "+":
                 result = +val_a
                 a_type = promoted_type(a.value_type)
